@@ -177,7 +177,9 @@ Proof.
       (* a range error yields the clamped value, which is outside [0,256) *)
       unfold parse_int in E. destruct (t_val t) as [|c r]; [discriminate|].
       destruct (if byte_eqb c x2b || byte_eqb c x2d then r else c :: r); [discriminate|].
-      destruct (parse_unsigned_base0 _); [|discriminate].
+      destruct (parse_unsigned_base0 _);
+        [|destruct (range_first_base0 _ _); [|discriminate]; change (2 ^ (64 - 1)) with 9223372036854775808 in E;
+          destruct (byte_eqb c x2d); inversion E; subst; lia].
       change (2 ^ (64 - 1)) with 9223372036854775808 in E.
       destruct (negb (byte_eqb c x2d) && _) eqn:E1; [inversion E; subst; lia|].
       destruct (byte_eqb c x2d && _) eqn:E2; inversion E; subst; lia.
